@@ -118,47 +118,129 @@ end Cello.Text
 
 namespace Cello.Text
 
-/-! ## decimal integers: `scanLong` undoes `printInt` -/
+/-! ## integers: `scanNumber` undoes the digits printf writes, in base 8, 10 and 16 -/
 
-theorem natDigits_digits (n : Nat) : ∀ b ∈ natDigits n, 48 ≤ b ∧ b ≤ 57 := by
+theorem natDigits_zero : natDigits 0 = [48] := by rw [natDigits]; simp
+
+/-- evaluation rules for concrete numbers (`natDigits` is defined by well-founded recursion, which `decide` does not unfold) -/
+theorem natDigits_lt10 (n : Nat) (h : n < 10) : natDigits n = [48 + n] := by rw [natDigits]; simp [h]
+theorem natDigits_ge10 (n : Nat) (h : 10 ≤ n) : natDigits n = natDigits (n / 10) ++ [48 + n % 10] := by
+  rw [natDigits]; simp [Nat.not_lt.2 h]
+
+theorem digitsB_lt (base : Nat) (upper : Bool) (n : Nat) (h : n < base) : digitsB base upper n = [digitChar upper n] := by
+  rw [digitsB]; simp [h]
+theorem digitsB_ge (base : Nat) (upper : Bool) (n : Nat) (hb : 2 ≤ base) (h : base ≤ n) :
+    digitsB base upper n = digitsB base upper (n / base) ++ [digitChar upper (n % base)] := by
+  rw [digitsB]; have : ¬(n < base ∨ base < 2) := by omega
+  simp [this]
+
+/-- decimal digits are the base-10 instance of `digitsB` -/
+theorem natDigits_eq (n : Nat) : natDigits n = digitsB 10 false n := by
   induction n using Nat.strongRecOn with
   | _ n ih =>
-    rw [natDigits]; split
-    · intro b hb; simp at hb; omega
-    · intro b hb
-      simp only [List.mem_append, List.mem_singleton] at hb
-      rcases hb with hb | hb
-      · exact ih (n / 10) (by omega) b hb
-      · omega
+    by_cases h : n < 10
+    · rw [natDigits_lt10 n h, digitsB_lt 10 false n h]; simp [digitChar, h]
+    · rw [natDigits_ge10 n (by omega), digitsB_ge 10 false n (by omega) (by omega), ih (n / 10) (by omega)]
+      have : n % 10 < 10 := Nat.mod_lt _ (by omega)
+      simp [digitChar, this]
 
-/-- a positive number's first digit is not `0` -/
-theorem natDigits_head (n : Nat) (hn : 0 < n) : ∃ d r, natDigits n = d :: r ∧ 49 ≤ d ∧ d ≤ 57 := by
+theorem digitVal_digitChar (base : Nat) (upper : Bool) (d : Nat) (hd : d < base) (hb : base ≤ 16) :
+    digitVal base (digitChar upper d) = some d := by
+  unfold digitVal digitChar
+  by_cases h10 : d < 10
+  · have h1 : 48 ≤ 48 + d ∧ 48 + d ≤ 57 := by omega
+    simp only [h10, if_true, h1, and_self]
+    simp [hd]
+  · cases upper with
+    | true =>
+      have h1 : ¬(48 ≤ 55 + d ∧ 55 + d ≤ 57) := by omega
+      have h2 : ¬(97 ≤ 55 + d ∧ 55 + d ≤ 102) := by omega
+      have h3 : (65 ≤ 55 + d ∧ 55 + d ≤ 70) := by omega
+      simp only [h10, if_false, if_true, h1, h2, h3, and_self]
+      have : 55 + d - 55 = d := by omega
+      simp [this, hd]
+    | false =>
+      have h1 : ¬(48 ≤ 87 + d ∧ 87 + d ≤ 57) := by omega
+      have h2 : (97 ≤ 87 + d ∧ 87 + d ≤ 102) := by omega
+      simp only [h10, if_false, Bool.false_eq_true, h1, h2, and_self, if_true]
+      have : 87 + d - 87 = d := by omega
+      simp [this, hd]
+
+/-- value of a digit list read left to right in base `base`, starting from `acc` (what `readDigits` accumulates) -/
+def evalDV (base : Nat) (acc : Nat) (ds : List Nat) : Nat := ds.foldl (fun a b => a * base + (digitVal base b).getD 0) acc
+
+/-- every character of `digitsB` is a digit of the base -/
+theorem digitsB_valid (base : Nat) (upper : Bool) (hb2 : 2 ≤ base) (hb : base ≤ 16) (n : Nat) :
+    ∀ b ∈ digitsB base upper n, ∃ d, d < base ∧ b = digitChar upper d ∧ digitVal base b = some d := by
   induction n using Nat.strongRecOn with
   | _ n ih =>
-    rw [natDigits]; split
-    · exact ⟨48 + n, [], rfl, by omega, by omega⟩
-    · obtain ⟨d, r, h, h1, h2⟩ := ih (n / 10) (by omega) (by omega)
-      exact ⟨d, r ++ [48 + n % 10], by rw [h]; rfl, h1, h2⟩
+    by_cases h : n < base
+    · rw [digitsB_lt base upper n h]
+      intro b hb'; simp at hb'; subst hb'
+      exact ⟨n, h, rfl, digitVal_digitChar base upper n h hb⟩
+    · rw [digitsB_ge base upper n hb2 (by omega)]
+      intro b hb'
+      simp only [List.mem_append, List.mem_singleton] at hb'
+      rcases hb' with hb' | hb'
+      · exact ih (n / base) (Nat.div_lt_self (by omega) (by omega)) b hb'
+      · subst hb'
+        have : n % base < base := Nat.mod_lt _ (by omega)
+        exact ⟨n % base, this, rfl, digitVal_digitChar base upper _ this hb⟩
 
-/-- value of a digit list read left to right, starting from `acc` (what `readDigits 10` accumulates) -/
-def evalDigits (base : Nat) (acc : Nat) (ds : List Nat) : Nat := ds.foldl (fun a b => a * base + (b - 48)) acc
-
-theorem evalDigits_natDigits (n : Nat) : ∀ acc, evalDigits 10 acc (natDigits n) = acc * 10 ^ (natDigits n).length + n := by
+theorem evalDV_digitsB (base : Nat) (upper : Bool) (hb2 : 2 ≤ base) (hb : base ≤ 16) (n : Nat) :
+    ∀ acc, evalDV base acc (digitsB base upper n) = acc * base ^ (digitsB base upper n).length + n := by
   induction n using Nat.strongRecOn with
   | _ n ih =>
     intro acc
-    rw [natDigits]; split
-    · simp [evalDigits]
-    · have := ih (n / 10) (by omega) acc
-      simp only [evalDigits] at this ⊢
+    by_cases h : n < base
+    · rw [digitsB_lt base upper n h]
+      simp [evalDV, digitVal_digitChar base upper n h hb]
+    · rw [digitsB_ge base upper n hb2 (by omega)]
+      have := ih (n / base) (Nat.div_lt_self (by omega) (by omega)) acc
+      have hm : n % base < base := Nat.mod_lt _ (by omega)
+      simp only [evalDV] at this ⊢
       rw [List.foldl_append, this]
       simp only [List.foldl_cons, List.foldl_nil, List.length_append, List.length_cons, List.length_nil, Nat.pow_succ,
-        ← Nat.mul_assoc]
-      generalize acc * 10 ^ (natDigits (n / 10)).length = X
-      omega
+        digitVal_digitChar base upper _ hm hb, Option.getD_some, Nat.zero_add]
+      have hdm := Nat.div_add_mod n base
+      generalize (digitsB base upper (n / base)).length = L at *
+      rw [Nat.add_mul, Nat.mul_assoc]
+      rw [Nat.mul_comm (n / base) base, Nat.add_assoc, hdm]
 
-theorem digitVal_digit (base b : Nat) (h1 : 48 ≤ b) (h2 : b ≤ 57) (h3 : b - 48 < base) : digitVal base b = some (b - 48) := by
-  simp [digitVal, h1, h2, h3]
+theorem digitChar_facts (upper : Bool) (d : Nat) (h0 : 0 < d) (h : d < 16) :
+    digitChar upper d ≠ 48 ∧ isSpace (digitChar upper d) = false ∧ digitChar upper d ≠ 45 ∧ digitChar upper d ≠ 43 := by
+  unfold digitChar isSpace
+  by_cases h10 : d < 10
+  · simp only [h10, if_true]
+    refine ⟨by omega, ?_, by omega, by omega⟩
+    simp; omega
+  · cases upper with
+    | true =>
+      simp only [h10, if_false, if_true]
+      refine ⟨by omega, ?_, by omega, by omega⟩
+      simp; omega
+    | false =>
+      simp only [h10, if_false, Bool.false_eq_true]
+      refine ⟨by omega, ?_, by omega, by omega⟩
+      simp; omega
+
+/-- a positive number's first digit is not `0` -/
+theorem digitsB_head (base : Nat) (upper : Bool) (hb2 : 2 ≤ base) (hb : base ≤ 16) (n : Nat) (hn : 0 < n) :
+    ∃ d r, digitsB base upper n = d :: r ∧ d ≠ 48 ∧ isSpace d = false ∧ d ≠ 45 ∧ d ≠ 43 ∧ digitVal base d ≠ none := by
+  induction n using Nat.strongRecOn with
+  | _ n ih =>
+    by_cases h : n < base
+    · rw [digitsB_lt base upper n h]
+      obtain ⟨f1, f2, f3, f4⟩ := digitChar_facts upper n hn (by omega)
+      refine ⟨digitChar upper n, [], rfl, f1, f2, f3, f4, ?_⟩
+      rw [digitVal_digitChar base upper n h hb]; simp
+    · rw [digitsB_ge base upper n hb2 (by omega)]
+      have hpos : 0 < n / base := Nat.div_pos (by omega) (by omega)
+      obtain ⟨d, r, h1, h2⟩ := ih (n / base) (Nat.div_lt_self (by omega) (by omega)) hpos
+      exact ⟨d, r ++ [digitChar upper (n % base)], by rw [h1]; rfl, h2⟩
+
+theorem digitsB_ne_nil (base : Nat) (upper : Bool) (n : Nat) : digitsB base upper n ≠ [] := by
+  rw [digitsB]; split <;> simp
 
 theorem digitVal_nondigit (base b : Nat) (hb : base ≤ 10) (h : isDigit b = false) : digitVal base b = none := by
   simp only [isDigit, Bool.and_eq_false_iff, decide_eq_false_iff_not, Nat.not_le] at h
@@ -176,22 +258,51 @@ theorem digitVal_nondigit (base b : Nat) (hb : base ≤ 10) (h : isDigit b = fal
     · have : ¬(48 ≤ b ∧ b ≤ 57) := by omega
       simp [this, h1, h2]
 
+theorem digitVal_nonhex (base b : Nat) (h : isHexDigit b = false) : digitVal base b = none := by
+  have h1 : ¬(48 ≤ b ∧ b ≤ 57) := by
+    intro hh; simp [isHexDigit, isDigit, hh.1, hh.2] at h
+  have h2 : ¬(97 ≤ b ∧ b ≤ 102) := by
+    intro hh
+    have hl : lower b = b := by unfold lower; split <;> omega
+    simp [isHexDigit, hl, hh.1, hh.2] at h
+  have h3 : ¬(65 ≤ b ∧ b ≤ 70) := by
+    intro hh
+    have hl : lower b = b + 32 := by unfold lower; split <;> omega
+    have e1 : 97 ≤ b + 32 := by omega
+    have e2 : b + 32 ≤ 102 := by omega
+    simp [isHexDigit, hl, e1, e2] at h
+  unfold digitVal
+  simp [h1, h2, h3]
+
+theorem digitVal_mono (base base' b : Nat) (hb : base' ≤ base) (h : digitVal base b = none) : digitVal base' b = none := by
+  unfold digitVal at *
+  generalize (if 48 ≤ b ∧ b ≤ 57 then some (b - 48) else if 97 ≤ b ∧ b ≤ 102 then some (b - 87) else if 65 ≤ b ∧ b ≤ 70 then some (b - 55) else none) = v at *
+  cases v with
+  | none => rfl
+  | some d =>
+    simp only at h ⊢
+    split at h
+    · exact absurd h (by simp)
+    · have : ¬ d < base' := by omega
+      simp [this]
+
 /-- `readDigits` over a run of digits valid in the base, followed by text whose first byte is not a digit of the base -/
 theorem readDigits_run (base : Nat) (ds rest : List Nat)
-    (hds : ∀ b ∈ ds, digitVal base b = some (b - 48))
+    (hds : ∀ b ∈ ds, digitVal base b ≠ none)
     (hrest : ∀ b r, rest = b :: r → digitVal base b = none) :
-    ∀ acc k, readDigits base (ds ++ rest) acc k = (evalDigits base acc ds, k + ds.length, rest) := by
+    ∀ acc k, readDigits base (ds ++ rest) acc k = (evalDV base acc ds, k + ds.length, rest) := by
   induction ds with
   | nil =>
     intro acc k
     cases rest with
-    | nil => simp [readDigits, evalDigits]
-    | cons b r => simp [readDigits, evalDigits, hrest b r rfl]
+    | nil => simp [readDigits, evalDV]
+    | cons b r => simp [readDigits, evalDV, hrest b r rfl]
   | cons d ds ih =>
     intro acc k
     have hd := hds d List.mem_cons_self
-    have := ih (fun b hb => hds b (List.mem_cons_of_mem _ hb)) (acc * base + (d - 48)) (k + 1)
-    simp only [List.cons_append, readDigits, hd, this, evalDigits, List.foldl_cons, List.length_cons]
+    obtain ⟨v, hv⟩ := Option.ne_none_iff_exists'.1 hd
+    have := ih (fun b hb => hds b (List.mem_cons_of_mem _ hb)) (acc * base + v) (k + 1)
+    simp only [List.cons_append, readDigits, hv, this, evalDV, List.foldl_cons, List.length_cons, Option.getD_some]
     congr 2; omega
 
 theorem headIs_false_iff (p : Nat → Bool) (l : List Nat) : headIs p l = false ↔ ∀ b r, l = b :: r → p b = false := by
@@ -206,112 +317,111 @@ theorem autoBase_nonzero (d : Nat) (r : List Nat) (h : d ≠ 48) : autoBase (d :
   unfold autoBase
   split <;> simp_all
 
-theorem autoBase_zero (rest : List Nat) (h : headIs (fun b => b == 120 || b == 88) rest = false) : autoBase (48 :: rest) = 8 := by
+theorem autoBase_zero (rest : List Nat) (h : headIs isXx rest = false) : autoBase (48 :: rest) = 8 := by
   cases rest with
   | nil => simp [autoBase]
   | cons x r =>
-    simp only [headIs, Bool.or_eq_false_iff, beq_eq_false_iff_ne] at h
+    simp only [headIs, isXx, Bool.or_eq_false_iff, beq_eq_false_iff_ne] at h
     simp [autoBase, h.1, h.2]
 
-/-- digits of `m > 0`, then text that does not start with a digit: read in base 10 (whether chosen by `%ld` or by `%li`) -/
-theorem scanLong_pos (auto neg : Bool) (m : Nat) (hm : 0 < m) (rest : List Nat) (hr : headIs isDigit rest = false) :
-    scanLong auto ((if neg then [45] else []) ++ natDigits m ++ rest) = .ok (clampLong neg m, rest) := by
-  obtain ⟨d, r, hd, h1, h2⟩ := natDigits_head m hm
-  have hrun := readDigits_run 10 (natDigits m) rest
-    (fun b hb => by have := natDigits_digits m b hb; exact digitVal_digit 10 b this.1 this.2 (by omega))
-    (fun b r' hbr => digitVal_nondigit 10 b (by omega) ((headIs_false_iff _ _).1 hr b r' hbr)) 0 0
-  have hval := evalDigits_natDigits m 0
-  have hlen : (natDigits m).length ≠ 0 := by rw [hd]; simp
-  have hsp : isSpace d = false := by simp [isSpace]; omega
-  have hb10 : (if auto = true then autoBase (natDigits m ++ rest) else 10) = 10 := by
-    split
-    · rw [hd]; exact autoBase_nonzero d _ (by omega)
-    · rfl
+theorem hexPrefix_nonzero (d : Nat) (r : List Nat) (h : d ≠ 48) : hexPrefix (d :: r) = false := by
+  unfold hexPrefix
+  split <;> simp_all
+
+theorem hexPrefix_zero (rest : List Nat) (h : headIs isXx rest = false) : hexPrefix (48 :: rest) = false := by
+  cases rest with
+  | nil => simp [hexPrefix]
+  | cons x r =>
+    simp only [headIs, isXx] at h
+    simp [hexPrefix, h]
+
+/-- the base printf writes a conversion in -/
+def IConv.printBase : IConv → Nat
+  | .o => 8
+  | .x | .X => 16
+  | _ => 10
+
+/-- "the text that follows does not continue a number read in base `base`" -/
+def noDigitOf (base : Nat) (rest : List Nat) : Prop := ∀ b r, rest = b :: r → digitVal base b = none
+
+/-- what `scanNumber` makes of magnitude `v` and sign `neg` -/
+def finNum (c : IConv) (neg : Bool) (v : Nat) : Nat :=
+  if c.signed then (clampLong neg v % (2 : Int) ^ 64).toNat else clampULong neg v
+
+/-- digits of `m > 0` in the base of the conversion, optionally after a minus sign, then text that does not continue them: the
+    scanner reads exactly the digits, in that base (whether fixed by the conversion or chosen by `%i` from the prefix) -/
+theorem scanNumber_pos (c : IConv) (upper neg : Bool) (m : Nat) (hm : 0 < m) (rest : List Nat)
+    (hr : noDigitOf c.printBase rest) :
+    scanNumber c ((if neg then [45] else []) ++ digitsB c.printBase upper m ++ rest) = .ok (finNum c neg m, rest) := by
+  have hb2 : 2 ≤ c.printBase := by cases c <;> simp [IConv.printBase]
+  have hb16 : c.printBase ≤ 16 := by cases c <;> simp [IConv.printBase]
+  obtain ⟨d, r, hd, h48, hsp, h45, h43, _⟩ := digitsB_head c.printBase upper hb2 hb16 m hm
+  have hrun := readDigits_run c.printBase (digitsB c.printBase upper m) rest
+    (fun b hb => by obtain ⟨d', _, _, h⟩ := digitsB_valid c.printBase upper hb2 hb16 m b hb; rw [h]; simp) hr 0 0
+  have hval := evalDV_digitsB c.printBase upper hb2 hb16 m 0
+  have hlen : (digitsB c.printBase upper m).length ≠ 0 := by rw [hd]; simp
+  have hbase : c.scanBase (digitsB c.printBase upper m ++ rest) = c.printBase := by
+    rw [hd]
+    cases c <;> simp only [IConv.scanBase, IConv.printBase]
+    exact autoBase_nonzero d _ h48
+  have hpre : hexPrefix (digitsB c.printBase upper m ++ rest) = false := by
+    rw [hd]; exact hexPrefix_nonzero d _ h48
+  have hrun' : readDigits (c.scanBase (digitsB c.printBase upper m ++ rest)) (digitsB c.printBase upper m ++ rest) 0 0
+      = (m, (digitsB c.printBase upper m).length, rest) := by
+    rw [hbase, hrun, hval]; simp
   cases neg with
   | true =>
-    simp only [if_true, List.cons_append, List.nil_append, scanLong]
+    simp only [if_true, List.cons_append, List.nil_append, scanNumber]
     rw [skipSpace_nonspace 45 _ (by decide)]
-    simp only [true_or, if_true, hb10]
-    rw [hrun, hval]
-    simp [hlen]
+    simp only [true_or, if_true, hpre, Bool.false_eq_true, and_false, if_false]
+    rw [hrun']
+    simp [hlen, finNum]
   | false =>
-    simp only [Bool.false_eq_true, if_false, List.nil_append, scanLong]
-    rw [hd] at hrun hb10 hval hlen ⊢
-    simp only [List.cons_append] at hrun hb10 ⊢
+    simp only [Bool.false_eq_true, if_false, List.nil_append, scanNumber]
+    rw [hd] at hrun' hpre hlen ⊢
+    simp only [List.cons_append] at hrun' hpre ⊢
     rw [skipSpace_nonspace d _ hsp]
     have e1 : ¬ (d = 45 ∨ d = 43) := by omega
-    simp only [e1, if_false, hb10]
-    rw [hrun, hval]
+    simp only [e1, if_false, hpre, Bool.false_eq_true, and_false]
+    rw [hrun']
     have : ¬ d = 45 := by omega
-    simp [this]
+    simp [this, finNum] at hlen ⊢
 
-/-- the text `"0"` followed by text that starts neither with a digit nor (for `%li`) with `x`/`X` -/
-theorem scanLong_zero (auto : Bool) (rest : List Nat) (hr : headIs isDigit rest = false)
-    (hx : auto = true → headIs (fun b => b == 120 || b == 88) rest = false) :
-    scanLong auto (48 :: rest) = .ok (0, rest) := by
-  have hrun : ∀ base, 1 ≤ base → base ≤ 10 → readDigits base ([48] ++ rest) 0 0 = (evalDigits base 0 [48], 0 + 1, rest) := by
-    intro base hb1 hb2
-    exact readDigits_run base [48] rest (fun b hb => by simp at hb; subst hb; exact digitVal_digit base 48 (by omega) (by omega) (by omega))
-      (fun b r' hbr => digitVal_nondigit base b hb2 ((headIs_false_iff _ _).1 hr b r' hbr)) 0 0
-  simp only [scanLong]
+/-- the text `"0"` followed by text that starts neither with a digit of the base nor (for `%i %x %X`) with `x`/`X` -/
+theorem scanNumber_zero (c : IConv) (rest : List Nat) (hr : noDigitOf c.printBase rest)
+    (hx : c = .i ∨ c = .x ∨ c = .X → headIs isXx rest = false) :
+    scanNumber c (48 :: rest) = .ok (0, rest) := by
+  have hd0 : ∀ base, 1 ≤ base → digitVal base 48 = some 0 := by
+    intro base hb; unfold digitVal; simp; omega
+  -- the base scanf reads in: 8 after a lone 0 under `%i`, the conversion's own otherwise; either stops where the printed base stops
+  have hbase : c.scanBase (48 :: rest) = (if c = .i then 8 else c.printBase) := by
+    cases c <;> simp only [IConv.scanBase, IConv.printBase] <;> simp
+    exact autoBase_zero rest (hx (Or.inl rfl))
+  have hnd : noDigitOf (c.scanBase (48 :: rest)) rest := by
+    rw [hbase]
+    intro b r hbr
+    have := hr b r hbr
+    by_cases hc : c = .i
+    · subst hc; simp only [if_true]
+      exact digitVal_mono 10 8 b (by omega) this
+    · simp only [hc, if_false]; exact this
+  have hb1 : 1 ≤ c.scanBase (48 :: rest) := by
+    rw [hbase]; cases c <;> simp [IConv.printBase]
+  have hrun := readDigits_run (c.scanBase (48 :: rest)) [48] rest (fun b hb => by
+      simp at hb; subst hb; rw [hd0 _ hb1]; simp) hnd 0 0
+  have hnp : ¬(c.scanBase (48 :: rest) = 16 ∧ hexPrefix (48 :: rest) = true) := by
+    intro ⟨h16, hp⟩
+    have hcx : c = .x ∨ c = .X := by
+      rw [hbase] at h16
+      cases c <;> simp [IConv.printBase] at h16 <;> simp
+    have := hexPrefix_zero rest (hx (by rcases hcx with h | h <;> simp [h]))
+    rw [this] at hp; exact absurd hp (by decide)
+  simp only [scanNumber]
   rw [skipSpace_nonspace 48 _ (by decide)]
-  cases auto with
-  | true =>
-    have h8 := autoBase_zero rest (hx rfl)
-    simp only [show ¬((48:Nat) = 45 ∨ (48:Nat) = 43) by omega, if_false, if_true, h8]
-    have := hrun 8 (by omega) (by omega)
-    simp only [List.cons_append, List.nil_append] at this
-    rw [this]
-    simp [evalDigits, clampLong]
-  | false =>
-    simp only [show ¬((48:Nat) = 45 ∨ (48:Nat) = 43) by omega, if_false, Bool.false_eq_true]
-    have := hrun 10 (by omega) (by omega)
-    simp only [List.cons_append, List.nil_append] at this
-    rw [this]
-    simp [evalDigits, clampLong]
-
-theorem natDigits_zero : natDigits 0 = [48] := by rw [natDigits]; simp
-
-/-- evaluation rules for concrete numbers (`natDigits` is defined by well-founded recursion, which `decide` does not unfold) -/
-theorem natDigits_lt10 (n : Nat) (h : n < 10) : natDigits n = [48 + n] := by rw [natDigits]; simp [h]
-theorem natDigits_ge10 (n : Nat) (h : 10 ≤ n) : natDigits n = natDigits (n / 10) ++ [48 + n % 10] := by
-  rw [natDigits]; simp [Nat.not_lt.2 h]
-
-/-- **`%li` / `%ld` read back what `%li` printed**, for every int64 and every following text that does not continue the number -/
-theorem scanLong_printInt (auto : Bool) (n : Int) (hn : inInt64 n = true) (rest : List Nat)
-    (hs : intSafe auto n rest = true) :
-    scanLong auto (printInt n ++ rest) = .ok (n, rest) := by
-  simp only [inInt64, Bool.and_eq_true, decide_eq_true_eq] at hn
-  simp only [intSafe, Bool.and_eq_true, Bool.not_eq_true', Bool.and_eq_false_iff, beq_eq_false_iff_ne] at hs
-  obtain ⟨hdig, hx⟩ := hs
-  by_cases hneg : n < 0
-  · have hm : 0 < n.natAbs := by omega
-    have := scanLong_pos auto true n.natAbs hm rest hdig
-    simp only [if_true, List.cons_append, List.nil_append] at this
-    simp only [printInt, hneg, if_true, List.cons_append]
-    rw [this]
-    simp only [clampLong, if_true]
-    have : ¬ (n.natAbs ≥ 2 ^ 63) ∨ n = -(2^63 : Int) := by omega
-    rcases this with h | h
-    · simp only [h, if_false]; congr 2; omega
-    · subst h; simp
-  · by_cases hz : n = 0
-    · subst hz
-      simp only [printInt, Int.natAbs_zero, natDigits_zero, List.cons_append, List.nil_append]
-      simp
-      apply scanLong_zero auto rest hdig
-      intro ha
-      rcases hx with (h | h) | h
-      · simp [ha] at h
-      · simp at h
-      · exact h
-    · have hm : 0 < n.natAbs := by omega
-      have := scanLong_pos auto false n.natAbs hm rest hdig
-      simp only [Bool.false_eq_true, if_false, List.nil_append] at this
-      simp only [printInt, hneg, if_false]
-      rw [this]
-      simp only [clampLong, Bool.false_eq_true, if_false]
-      have h : ¬ (n.natAbs ≥ 2 ^ 63) := by omega
-      simp only [h, if_false]; congr 2; omega
+  simp only [show ¬((48:Nat) = 45 ∨ (48:Nat) = 43) by omega, if_false, hnp]
+  simp only [List.cons_append, List.nil_append] at hrun
+  rw [hrun]
+  simp only [evalDV, List.foldl_cons, List.foldl_nil, hd0 _ hb1]
+  cases c <;> simp [IConv.signed, clampLong, clampULong]
 
 end Cello.Text
